@@ -343,6 +343,21 @@ _sub('C10', "(induction; that the code's spectral filters are conjugated follows
 _sub('C05', "which equals the discrete gradient-wind balance residual (its vanishing for solid-body rotation with the analytically balanced surface pressure is a test on the real code, not a theorem).",
      "which equals the discrete gradient-wind balance residual, so such a flow is steady iff that residual vanishes (its vanishing for solid-body rotation with the analytically balanced surface pressure is a test on the real code and a computation on a toy sphere with longitude, not a theorem).")
 
+# ---- after the extensions x_C01 (T1.5) and x_DYN (concrete instance of the abstract spectral model)
+_sub('C01', "PARTIAL (named): the quantifier over grid configurations",
+     "(T1.5) Over the reals, for every number of longitude nodes N and wavenumbers M accepted by the code (N >= M >= 1), the model's real Fourier basis (both layouts) has under the trapezoid weight 2 pi / N the exact Gram matrix [N | m-m'] +- [N | m+m'] (constant row sqrt2 [N | m]); it is the identity (except the structurally zero row / column 1 of the zero-imag layout) iff 2(M-1) < N, column-wise as soon as |m'| + (M-1) < N, with the aliasing counterexample at N = 2(M-1); "
+     "consequently transform(inverse_transform x) = x holds EXACTLY for every field supported in the triangle, for all N, M, L, J and any padding, provided only that the Legendre tables are orthonormal under the latitude weights: the configuration quantifier is proved in the longitude direction (tied to the real arrays by a Gram sweep at 1e-12 incl. N = M, 2M-2, 2M-1; every T* / TL* / with_wavenumbers grid satisfies the condition) and remains certified / sampled in the latitude direction only. "
+     "PARTIAL (named): the quantifier over LATITUDE configurations")
+_DYN = (" The abstract carriers are INSTANTIATED with the list model of the real Grid (Dino.DynamicsInst.gridOps; index DYN, 77 theorems, audited and pinned through the C05 check and tied to the real Grid by the C02 / C09 list-model correspondence restricted to the record): "
+        "linearity of all operations, clip / Laplacian / l-projection laws, lap(one) = 0, (0,0)-mode facts, mask closure (layouts without padding columns; with padding columns the closed set is 'masked except column L', proved and reproduced on the real Grid), radius scaling and the mirror commutation laws are THEOREMS of the instance; "
+        "the analytic laws are isolated as hypotheses on the basis tables only (AnalyticLaws: C01 Gram identity, C02 Hyp-A / Hyp-B, to_nodal(1) = 1, sec^2 cos^2 = 1), div(uv) = delta is derived from them, and every hypothesis is a theorem on the rational M = 3 grid gT.")
+CHECKS['C04']['text'] += _DYN + " T4.2 is instantiated for the concrete grid under AnalyticLaws only (total_tendency_indep_of_reference_grid; fully discharged on gT: t42_gT)."
+CHECKS['C05']['text'] += _DYN + " T5.1 (dry) is instantiated for the concrete grid with NO hypothesis on the tables (rest_steady_dry_grid)."
+CHECKS['C10']['text'] += _DYN + " For the mirror all operation-wise commutation laws are theorems of the instance (equivariant_mirror); the two transform laws reduce to T10.3; the rotation is not packaged for the instance."
+CHECKS['C11']['text'] += _DYN + " OpsClosed (every layout with the loose mask; unpadded with the strict mask), Mode0 and Mean0 are theorems of the instance given sqrt 0 = 0 and C01's structural zeros; UniformOk.div_uv and Inv0Ok remain validated hypotheses."
+CHECKS['C12']['text'] += _DYN + " OpsLaws, ProjLaws and OpsScaled (grid of radius l r) are theorems of the instance; explicitTerms_two_radii instantiates T12.1 for the concrete grid without any table hypothesis; InvScaled and ConstMode (external inverses) remain hypotheses."
+CHECKS['C05']['technique'] += '; this check also audits the index DYN (concrete instance of the abstract model) and runs its tie to the real Grid (props/dyn_inst.py)'
+
 NOT_YET = {
 }
 
